@@ -122,14 +122,27 @@ def parse(text, tk=None, timeout=5, want_events=False):
     verif_probe.set_sink(events.append if want_events else None)
     old_handler = signal.signal(signal.SIGVTALRM, _alarm)
     signal.setitimer(signal.ITIMER_VIRTUAL, timeout)
+    caught = []
+    r = None
     try:
-        toks = tk.transform(text, show_debug=False)
-        signal.setitimer(signal.ITIMER_VIRTUAL, 0)
-        return (toks, events) if want_events else toks
+        try:
+            toks = tk.transform(text, show_debug=False)
+            signal.setitimer(signal.ITIMER_VIRTUAL, 0)
+            return (toks, events) if want_events else toks
+        except Watchdog:
+            r = ("EXC", "Watchdog", "", _HANG["where"])
+        except Exception as ex:  # pylint: disable=broad-except
+            caught.append(ex)              # examined below, after the timer is off
     except Watchdog:
-        r = ("EXC", "Watchdog", "", _HANG["where"])
-    except Exception as ex:  # pylint: disable=broad-except
-        c = ex
+        # the timer fired while the exception above was being caught: the parse had already ended with that exception
+        if not caught:
+            r = ("EXC", "Watchdog", "", _HANG["where"])
+    finally:
+        signal.setitimer(signal.ITIMER_VIRTUAL, 0)
+        signal.signal(signal.SIGVTALRM, old_handler)
+        verif_probe.set_sink(None)
+    if r is None:
+        c = caught[0]
         while c.__cause__ is not None:
             c = c.__cause__
         import traceback
@@ -138,10 +151,6 @@ def parse(text, tk=None, timeout=5, want_events=False):
         if tb:
             where = "%s:%s" % (os.path.basename(tb[-1].filename), tb[-1].name)
         r = ("EXC", type(c).__name__, str(c)[:120], where)
-    finally:
-        signal.setitimer(signal.ITIMER_VIRTUAL, 0)
-        signal.signal(signal.SIGVTALRM, old_handler)
-        verif_probe.set_sink(None)
     return (r, events) if want_events else r
 
 
